@@ -171,8 +171,10 @@ class Recorder:
                 numbering = c26_fp.Numbering()
                 pre = self._fp(roots, numbering, True)
         else:
+            # nested attempt: same numbering, and (LFRic) the same set of
+            # pre-existing symbols as the enclosing top-level attempt
             numbering = self.stack[0]["numbering"]
-            pre = self._fp(roots, numbering, True)
+            pre = self._fp(roots, numbering, False)
         name = type(tself).__name__
         opts = kwargs.get("options", args[1] if len(args) > 1 and
                           isinstance(args[1], dict) else None)
@@ -208,7 +210,8 @@ class Recorder:
                     if self.text_every > 1 and seq % self.text_every:
                         infer = pre
                     # after a commit everything is (re)numbered: pre-mode
-                    post = self._fp(roots, numbering, outcome == "ok",
+                    post = self._fp(roots, numbering,
+                                    outcome == "ok" and depth == 0,
                                     infer_from=infer)
                 self.counts[outcome] += 1
                 line = ["E", seq, outcome] + (post.triple() if post else ["", "", ""])
